@@ -61,6 +61,14 @@ def cases(tier):
             for p in range(nnum):
                 nums = [(special if k == p else "S{k}").format(k=k + 1) for k in range(nnum)]
                 combos.append((1, 1, nums, [STR_OPERANDS[0].format(k=k + 1) for k in range(nstr)]))
+        # the same form twice in one program, with different operands and a different result variable: each statement
+        # must get its own call with its own operands (no node, destination or temporary shared between the two)
+        n1, s1 = ["S{k}".format(k=k + 1) for k in range(nnum)], ["T{k}$".format(k=k + 1) for k in range(nstr)]
+        n2, s2 = ["S{k}".format(k=k + 6) for k in range(nnum)], ["T{k}$".format(k=k + 6) for k in range(nstr)]
+        b1, b2 = instantiate(f["template"], n1, s1), instantiate(f["template"], n2, s2).replace("ZZ", "YY")
+        for src in (f"10 {b1}\n20 {b2}", f"10 {b1}:{b2}"):
+            out.append({"fmt": "forms", "kind": f["name"], "form": f, "text": src, "nums": n1, "strs": s1, "twice": (n2, s2),
+                        "req": f"form {f['name']} {hexs(src.encode())}"})
         for a, b, nums, strs in combos:
             body = instantiate(f["template"], nums, strs)
             # layouts: as written; blanks after commas and a blank + another statement behind it; trailing blank
@@ -71,11 +79,17 @@ def cases(tier):
     return out
 
 
-def find_call(out, proc):
+def find_call(out, proc, nth=0):
+    seen = 0
     for line in out.split("\n"):
         for callee, args, idx in T.run_calls(T.code_tokens(T.line_label(line)[1])):
             if callee == proc:
-                m = re.search(r"(?i)\brun\s+" + re.escape(proc) + r"\b", line)
+                seen += 1
+                if seen <= nth:
+                    continue
+                ms = list(re.finditer(r"(?i)\brun\s+" + re.escape(proc) + r"\b", line))
+                same_line_before = sum(1 for c2, _, i2 in T.run_calls(T.code_tokens(T.line_label(line)[1])) if c2 == proc and i2 < idx)
+                m = ms[min(same_line_before, len(ms) - 1)]
                 # text of the call: from RUN to its closing parenthesis
                 s = line[m.start():]
                 depth, k = 0, s.find("(")
@@ -127,14 +141,27 @@ def run(tier):
             out = convert(c["text"], add_standard_prefix=False, add_suffix=False)
             c["out"] = out
             call = find_call(out, c["form"]["proc"])
+            if c.get("twice") and call:
+                call2 = find_call(out, c["form"]["proc"], 1)
+                call = call + " || " + (call2 or "<no second call> " + out)
             impl.append("ok " + hexs((call or "<no call> " + out).encode()))
         except Exception as e:  # noqa: BLE001
             ops = []
             impl.append("fail " + type(e).__name__)
         reqs.append(f"devexpect {hexs(c['form']['name'].encode())} {hexs(chr(9).join(ops).encode())}")
+    twice = [c for c in cs if c.get("twice")]
+    for c in twice:
+        try:
+            ops2, _ = operand_texts(c["twice"][0] + c["twice"][1])
+        except Exception:  # noqa: BLE001
+            ops2 = []
+        reqs.append(f"devexpect {hexs(c['form']['name'].encode())} {hexs(chr(9).join(ops2).encode())}")
     spec = run_driver(reqs)
     for c, sp in zip(cs, spec):
         c["expect"] = unhex(sp[3:]).decode() if sp.startswith("ok ") else sp
+    for c, sp in zip(twice, spec[len(cs):]):
+        second = unhex(sp[3:]).decode() if sp.startswith("ok ") else sp
+        c["expect"] = c["expect"] + " || " + second.replace("ZZ", "YY")
     # the spec table is both the pinned description of the device visitors and the specification:
     # a difference is judged by the oracle (there is no second model to disagree with)
     return {"cases": cs, "model": list(impl), "impl": impl, "disagreements": []}
